@@ -40,6 +40,9 @@ CHECKS = {
  "C14": ("(a) flag-definition sets x all 256 masks (exhaustive per set): mask -> decompiled label -> harness's own label reader and truth's parser both give the mask back; (b) statements with 1..3 (nested) switches of 2..8 cases under sampled labels: per-difficulty exactly-one-copy rule with case values and default-on bits; (c) raw streams with arbitrary masks -> decompile with switch recognition -> recompile -> identical per-difficulty call logs for d = 0..7.",
          "Flag sets are sampled (thorough: all 256 default-on patterns); TestLanguage instruction format.",
          "exhaustive mask sweep per generated configuration + property-based round trip / model check"),
+ "C16": ("Byte strings = bundled test binaries | binaries compiled from generated ANM (with embedded dummy images) / STD / MSG / END / mission / pre-TH10 ECL sources | short raw strings, after 0..4 mutations (truncation at any offset; 8/16/32-bit fields set to boundary values, to the file length +-4, +-small deltas; chunk delete / insert / copy), read as the same or another game, under sampled decompile options, plus image extraction for ANM; and every truncation of every bundled file. read + decompile + print (+ extract) must return Ok or Err with an error-severity diagnostic naming the file.",
+         "Violations: panic, abort, stack overflow, a single allocation request > 512 MiB (requests > 2 GiB are refused by the harness's allocator and abort the shard: reported as a violation with the pending case). A hang (60 s watchdog) is reported as inconclusive. TH10+ ECL is not read by this version of truth.",
+         "mutation-based fuzzing of valid files with a crash / diagnostic oracle (proptest-driven, structure-aware mutations)"),
 }
 PENDING = "check not built yet in this revision (planned: see DESIGN.md section 5)"
 m = {"version": 1,
